@@ -81,6 +81,10 @@ CHECKS = {
    "Enumerates the whole TLS configuration matrix (864 cells + https-without-TLS cases) on every run with real rustls handshakes between the real Endpoint/ClientTlsConfig and either tonic's own Server::tls_config or a harness acceptor with a chosen ALPN, over the in-memory pipe; a decision table written from the property text predicts success, a handler counter and a byte tap of the client's first bytes observe leakage, and the handler reports Request::peer_certs().",
    "Exhaustive over the stated matrix, not over certificates (one PKI under fixtures/pki, 2020-2120); for the ALPN none/http1.1 rows the server-side TLS is the harness's rustls configuration (tonic's server always offers h2).",
    "runtime monitoring: exhaustive configuration matrix + decision-table oracle + wire tap", "DESIGN.md#c15"),
+ "C11": ("exploration",
+   "Runs the real generator over random service descriptors and option combinations, parses the output with syn and compares, per method, the path/shape/types the generated client uses with the ones the generated server dispatches on and with expectations derived from the descriptor, plus SERVICE_NAME/NamedService; a second leg copies /repo to a scratch directory, runs the real codegen binary and byte-compares the committed generated sources of the health, reflection and rich-error crates. End-to-end dispatch of generated code is exercised by C02 and C10 whose services are generated at build time by the same generator.",
+   "Held on the descriptor sets produced; the regeneration comparison is exact and complete (all generated files).",
+   "runtime monitoring: generator run + token-level differential client/server oracle + byte comparison of regenerated sources", "DESIGN.md#c11"),
 }
 
 NOT_YET = {}
